@@ -59,6 +59,10 @@ pub struct Case {
     /// discards every chunk but the one at the front of the queue.
     #[serde(default)]
     pub delivery: Vec<u8>,
+    /// pixels of the terminal beyond `cells * ppc` (less than one pixel per cell in either
+    /// direction: the pixel size of a real window is rarely a multiple of its cell count)
+    #[serde(default)]
+    pub pix_extra: (usize, usize),
 }
 
 // ---------------------------------------------------------------------------
@@ -180,11 +184,11 @@ struct ModelTerm {
 }
 
 impl ModelTerm {
-    fn new(h: usize, w: usize, ppc: (usize, usize), pool: Vec<Image>) -> Self {
+    fn new(h: usize, w: usize, ppc: (usize, usize), extra: (usize, usize), pool: Vec<Image>) -> Self {
         ModelTerm {
             size: TerminalSize {
                 cells: Size::new(h, w),
-                pixels: Size::new(h * ppc.0, w * ppc.1),
+                pixels: Size::new(h * ppc.0 + extra.0.min(h.saturating_sub(1)), w * ppc.1 + extra.1.min(w.saturating_sub(1))),
             },
             caps: TerminalCaps { depth: surf_n_term::encoder::ColorDepth::TrueColor, glyphs: true, kitty_keyboard: false },
             screen: Screen::new(h, w),
@@ -819,7 +823,8 @@ impl Prop for C01 {
         } else {
             Vec::new()
         };
-        Case { h, w, ppc, images, glyphs, steps, via_run_render, delivery }
+        let pix_extra = if rng.bool() { (0, 0) } else { (rng.below(h.max(1)), rng.below(w.max(1))) };
+        Case { h, w, ppc, images, glyphs, steps, via_run_render, delivery, pix_extra }
     }
 
     fn check(case: &Case, ctx: &mut Ctx) -> Result<(), Fail> {
@@ -868,7 +873,7 @@ impl Prop for C01 {
         if case.via_run_render {
             return check_via_run_render(case, &world, pool, ctx);
         }
-        let mut term = ModelTerm::new(h, w, case.ppc, pool.clone());
+        let mut term = ModelTerm::new(h, w, case.ppc, case.pix_extra, pool.clone());
         let mut renderer = TerminalRenderer::new(&mut term, false).map_err(|e| Fail::new("renderer-new", format!("{e:?}")))?;
         let mut glyph_keys: Vec<(usize, Face)> = Vec::new();
         // once a frame with conflicting claims was rendered the terminal state is terminal-defined
@@ -956,7 +961,7 @@ impl Prop for C01 {
                     }
                     // second opinion: the same surface through a fresh real renderer on a blank terminal
                     if si % 3 == 0 {
-                        let mut t2 = ModelTerm::new(h, w, case.ppc, pool.clone());
+                        let mut t2 = ModelTerm::new(h, w, case.ppc, case.pix_extra, pool.clone());
                         t2.glyph_at = term.glyph_at.clone();
                         let mut r2 = TerminalRenderer::new(&mut t2, true)
                             .map_err(|e| Fail::new("renderer-new", format!("{e:?}")))?;
@@ -1069,7 +1074,7 @@ impl From<Error> for Stop {
 fn check_via_run_render(case: &Case, world: &World, pool: Vec<Image>, ctx: &mut Ctx) -> Result<(), Fail> {
     use surf_n_term::TerminalAction;
     let (h, w) = (case.h, case.w);
-    let mut term = ModelTerm::new(h, w, case.ppc, pool);
+    let mut term = ModelTerm::new(h, w, case.ppc, case.pix_extra, pool);
     term.delivery = case.delivery.clone();
     let mut glyph_keys: Vec<(usize, Face)> = Vec::new();
     let mut next = 0usize;
